@@ -297,11 +297,26 @@ fn link(o: &Ontology, m: &str, tids: &[Vec<u32>], table: &[u32], out: &mut Vec<S
         log.borrow_mut().push(call);
         res
     };
+    // the constructors take any `IntoIterator<Item = HpoSet>`: a vector (exact size hint), a filtered
+    // walk (lower bound 0), or a vector chained with a filtered walk (lower bound = the first part)
+    let mut sets = sets;
+    macro_rules! run {
+        ($f:path) => {
+            match (n + table.len()) % 3 {
+                0 => $f(sets, distance),
+                1 => $f(sets.into_iter().filter(|_| true), distance),
+                _ => {
+                    let tail = sets.split_off(n / 2);
+                    $f(sets.into_iter().chain(tail.into_iter().filter(|_| true)), distance)
+                }
+            }
+        };
+    }
     let linkage = match m {
-        "union" => Linkage::union(sets, distance),
-        "single" => Linkage::single(sets, distance),
-        "complete" => Linkage::complete(sets, distance),
-        _ => Linkage::average(sets, distance),
+        "union" => run!(Linkage::union),
+        "single" => run!(Linkage::single),
+        "complete" => run!(Linkage::complete),
+        _ => run!(Linkage::average),
     };
     // (lhs, rhs, distance, size) through the three public iterators
     let cl: Vec<(usize, usize, f32, usize)> = linkage.cluster().map(|c| (c.lhs(), c.rhs(), c.distance(), c.len())).collect();
